@@ -20,4 +20,7 @@ if not ok: sys.exit(1)
 ok, log = vlib.build_harness()
 print("harness:", ok, log[-500:])
 if not ok: sys.exit(1)
+ok, log = vlib.build_cli()
+print("corrosion cli:", ok, log[-300:])
+if not ok: sys.exit(1)
 PY
